@@ -92,6 +92,13 @@ def changed_fields(pre, post, prefix=''):
     return out
 
 
+def spec_fields_changed(pre, post, spec_roots):
+    """changed fields restricted to the fields the properties talk about (roots by top-level field name).  Fields added
+    later (debug counters, caches) are not judged by write-set rules: they start unconstrained in every pre-state, so
+    any influence they have on the specified fields is seen by the term rules."""
+    return [c for c in changed_fields(pre, post) if c.split('.')[0] in spec_roots]
+
+
 def run_method(it, st, path, self_val, args, genv=None):
     """call `path(&mut self, args...)`; returns (outcomes, cell_of_self)"""
     cell = st.new_cell(self_val)
@@ -107,3 +114,30 @@ def where_of(facts, path):
 
 def describe(v):
     return repr(v)
+
+
+def sem_iter(outs, include_loopback=False):
+    """iterate over outcomes with term equality interpreted under each outcome's own ranges and facts.
+    Back-edge outcomes of the loop abstraction are not results of the function and are skipped by default."""
+    from ..terms import set_sem
+    try:
+        for o in outs:
+            if o.status in ('loopback', 'probe-exit') and not include_loopback:
+                continue
+            set_sem(o.ctx)
+            yield o
+    finally:
+        set_sem(None)
+
+
+class structural:
+    """context manager: structural term equality (for nested interpreter runs inside a rule loop)"""
+
+    def __enter__(self):
+        from .. import terms
+        self.saved = terms._SEM[0]
+        terms._SEM[0] = None
+
+    def __exit__(self, *a):
+        from .. import terms
+        terms._SEM[0] = self.saved
